@@ -5,7 +5,8 @@ collect / find / move / copy / convert / delete / dry run; names from the C02 re
 files/utils.py; handlers and codecs are Section variables).
 
 Tie: random operation histories run on REAL FileSet objects in temporary trees inside child processes
-(tools/harness/c11_run.py; the NetCDF4 handler only there and only in the thorough tier).  After every operation
+(tools/harness/c11_run.py; the NetCDF4 handler only there: random NetCDF histories in the thorough tier, three directed
+histories with grouped data sets in both tiers).  After every operation
 the whole tree is listed and every file reduced -- independently of typhon, by magic bytes and the standard
 library -- to [compression code, handler code, payload].  The model's `step` is evaluated inside Coq on the listing
 before the operation and must predict the listing after it, the value returned, or the class of the exception.
@@ -45,6 +46,22 @@ Laws evaluated on the implementation's own output (theorems of Props/C11.v with 
     collect-value / move-tree.  8 directed histories store the same payloads in plain and in .gz / .bz2 / .xz / .zip
     filesets and read them through read(info), read("path"), fileset[t], fileset[s:e], collect, icollect, collect(files=)
     and move(convert=..) into a second labelled fileset.
+  * reading_keeps_disk / collect_reads_each_file_alone: 4 directed, seed-independent histories `shared-base-name` on COMPRESSED
+    filesets (.gz / .bz2 / .xz; pickle, JSON, typhon CSV) whose template gives the SAME base name to files in several sub
+    directories ({year}/{month}/{day}/data.pkl.gz, {year}{month}/{day}/{hour}{minute}.json.bz2, ...), 6-10 files, worker pools
+    as FileSet chooses them, temp_dir = a directory INSIDE the tree of the case that also holds bystander files named like the
+    decompressed base names (tmp/data.pkl), and a user reader that waits, opens its file and holds it open for a moment so that
+    the reads of the worker threads / processes overlap.  Read through collect(), fileset[s:e], icollect, collect(files=),
+    fileset[t] and move(convert=..) in two halves.  The model's step prescribes every payload and the whole tree (temp_dir
+    included: nothing left behind, bystanders there); in addition the SHA-1 of every file is taken after each step and every
+    read-only step must leave all of them as they were (signature read-changes-bytes).
+  * overwrite_forgets / overwrite_reads_last: NetCDF data sets with PSEUDO GROUPS (kind ncg, harness mk_grouped: root variables
+    first / a group first / groups only / flat, two sets of group names; grouped variables on dimensions of their own group) --
+    3 directed histories `netcdf-groups` in the quick tier too (one child process; .nc, .nc.gz, .h5): four files of the four
+    layouts, read back, then six overwrites in place (fileset[s:e] = data and write(data, path)) by data sets of another layout
+    and other group names, each read back at once, a converted copy into a second fileset and overwrites there.  val() rebuilds
+    the object from the payload and compares the variable SET (nothing lost, nothing of an earlier content left), values,
+    dtypes and dimensions; half of the random NetCDF histories of the thorough tier use grouped data sets.
 User handlers come in flavours the model does not distinguish (cfg rflav / wflav): two plain functions, or bound methods
 of a user object with the signatures (.., **kwargs), (.., offset=0), (.., offset=0, **kwargs); default, per-call and
 collect arguments must reach all of them alike.
@@ -97,7 +114,7 @@ ENDS = ["", "", "-{end_year}{end_month}{end_day}T{end_hour}{end_minute}{end_seco
         "-{end_year}{end_doy}{end_hour}{end_minute}{end_second}", "-{end_hour}{end_minute}{end_second}",
         "-{end_minute}{end_second}", "_{end_hour}{end_minute}"]     # the last three: only sub-day end fields (C02 partial)
 DIRS = ["", "", "{year}{month}{day}/", "{year}/{doy}/", "{year}/{month}/{day}/", "{year}/", "{year2}{month}/"]
-SUFFIX = {"pkl": [".pkl"], "json": [".json"], "csv": [".csv", ".txt", ".asc"], "nc": [".nc", ".h5"]}
+SUFFIX = {"pkl": [".pkl"], "json": [".json"], "csv": [".csv", ".txt", ".asc"], "nc": [".nc", ".h5"], "ncg": [".nc", ".h5"]}
 COMP = ["", "", "", ".gz", ".bz2", ".xz", ".zip"]
 
 
@@ -231,7 +248,7 @@ def gen_case(rng, k, tier, force_nc=False):
                 op["target"] = {"kind": "path", "path": gen_path(rng, "m%d" % moves, skind, sat, allow_zip)}
                 dkind = skind
             c = rng.random()
-            family = {"pkl": "d", "json": "d", "csv": "c", "nc": "n"}
+            family = {"pkl": "d", "json": "d", "csv": "c", "nc": "n", "ncg": "n"}
             if c < 0.45 and not has_zip and not op["target"].get("path", "").endswith(".zip"):
                 op["convert"] = None
                 op["conv_none"] = rng.random() < 0.5
@@ -509,6 +526,119 @@ def decorate2(rng, cases):
             c["ops"] = c["ops"] + tail
 
 
+def gv(b, names, shape):
+    """payload of a grouped NetCDF data set (harness mk_grouped): v % 4 = layout (0 root variables first, 1 a group first,
+    2 groups only, 3 flat), (v // 4) % 2 = which pair of group names"""
+    return 8 * b + 4 * names + shape
+
+
+def directed_cases4(k0):
+    """Seed-independent (no random draw at all).
+    (l) shared-base-name: a COMPRESSED fileset whose template gives the same base name to files in several sub directories
+    (.../{day}/data.pkl.gz), 6-10 files, the fileset's temp_dir a directory inside the tree that also holds BYSTANDER files
+    named like the decompressed base names (tmp/data.pkl), worker pools as FileSet chooses them, a user reader that holds its
+    file open for a moment so that the reads of the worker threads / processes overlap.  Everything is read through collect(),
+    fileset[s:e], icollect, collect(files=), fileset[t] and move(convert=..) in two halves.  The model prescribes: every file
+    reads back its own payload, nothing raises, the bystanders and every unselected file stay (tree listing + SHA-1 of every
+    file after each step), nothing remains in temp_dir.
+    (k) netcdf-groups: data sets with pseudo groups through the NetCDF4 handler (root variables first / a group first / groups
+    only / flat), overwritten in place by data sets of another layout and other group names, read back after every step: what
+    is read is what was written last -- same variable set, values, dtypes, dimensions."""
+    cases = []
+    base = {"sat": False, "cov": None, "rargs": 0, "wargs": 0, "post": None, "compress": True, "decompress": True,
+            "worker": "thread", "csv_args": 0}
+    sel_all = {"start": None, "end": None, "white": None, "black": None}
+    H = dt.timedelta(hours=1)
+    D = dt.timedelta(days=1)
+    d0 = dt.datetime(2018, 2, 26)          # runs over the end of February
+    d1 = dt.datetime(2019, 12, 29)         # runs over New Year
+    variants = [
+        # kind, compression, template below d0/, file times, names of the bystanders, reader delay ms, workers, target
+        ("pkl", ".gz", "{year}/{month}/{day}/data.pkl", [d0 + j * D for j in range(8)], ["data.pkl"], 120,
+         "default", "d9/{year}{month}{day}T{hour}.pkl"),
+        ("json", ".bz2", "{year}{month}/{day}/{hour}{minute}.json",
+         [d0 + j * D + h for j in range(3) for h in (6 * H + H / 2, 12 * H)], ["0630.json", "1200.json"], 100,
+         "default", "d9/{year}-{doy}_{hour}{minute}.json.gz"),
+        ("pkl", ".xz", "{year}/{doy}/obs_{hour}.pkl", [d1 + j * D + h for j in range(5) for h in (3 * H, 15 * H)],
+         ["obs_03.pkl", "obs_15.pkl"], 80, "thread", "d9/{year}/{month}/{year}{month}{day}{hour}.pkl.xz"),
+        ("csv", ".gz", "{year}/{month}/{day}/table.csv", [d1 + j * D for j in range(6)], ["table.csv"], None,
+         "default", "d9/{year}{doy}{hour}.txt"),
+    ]
+    for vi, (kind, comp, tpl, times, bys, slow, worker, tgt) in enumerate(variants):
+        f0 = dict(base, name="fs0", hkind=kind, worker=worker, path="d0/" + tpl + comp, temp_dir="tmp", slow=slow)
+        fb = [dict(base, name=f"by{j}", hkind=kind, path="tmp/" + b_) for j, b_ in enumerate(bys)]
+        ft = dict(base, name="fst", hkind=kind, worker=worker, path=tgt, temp_dir="tmp")
+        ti = 1 + len(fb)
+        v = 100 * (vi + 1)
+        ops = [{"op": "write", "fs": 1 + j, "s": us(times[0]), "e": us(times[0] + H), "v": v + 50 + j, "slice": True,
+                "fill": None, "call_args": None} for j in range(len(fb))]
+        ops += [{"op": "write", "fs": 0, "s": us(t_), "e": us(t_), "v": v + j + 1, "slice": False, "fill": None,
+                 "call_args": None} for j, t_ in enumerate(times)]
+        days = sorted({dt.datetime(t_.year, t_.month, t_.day) for t_ in times})
+        mid = days[len(days) // 2]
+        first = dict(sel_all, start=us(days[0]), end=us(mid))
+        second = dict(sel_all, start=us(mid), end=us(days[-1] + D))
+        ops += [{"op": "find", "fs": 0, **sel_all},
+                {"op": "collect", "fs": 0, "slice": False, **sel_all, "call_args": None},                    # collect()
+                {"op": "collect", "fs": 0, "slice": True, **dict(sel_all, start=us(days[1]), end=us(days[-1])),
+                 "call_args": None},                                                                          # fileset[s:e]
+                {"op": "collect", "fs": 0, "slice": False, **sel_all, "call_args": None, "icollect": True},  # icollect()
+                {"op": "collect", "fs": 0, "slice": False, **sel_all, "call_args": None, "use_files": 0b101101},
+                {"op": "read", "fs": 1, "pick": 0, "pre_args": 0, "call_args": None},                        # a bystander
+                {"op": "get", "fs": 0, "pick": 1, "pre_args": 0},                                            # fileset[t]
+                {"op": "move", "fs": 0, "copy": True, **first, "target": {"kind": "fs", "fs": ti}, "convert": "true",
+                 "conv_none": False},
+                {"op": "move", "fs": 0, "copy": False, **second, "target": {"kind": "fs", "fs": ti}, "convert": 5,
+                 "conv_none": False},
+                {"op": "find", "fs": ti, **sel_all},
+                {"op": "collect", "fs": ti, "slice": False, **sel_all, "call_args": None},
+                {"op": "find", "fs": 0, **sel_all},
+                {"op": "collect", "fs": 0, "slice": True, **sel_all, "call_args": None},
+                {"op": "read", "fs": len(fb), "pick": 0, "pre_args": 0, "call_args": None}]
+        cases.append({"id": k0 + len(cases), "filesets": [f0] + fb + [ft], "ops": ops, "directed": "shared-base-name",
+                      "digest": True})
+    # ---- (k): suffix, compression, how the overwrites are done, compression of the fileset converted into
+    for vi, (sfx, comp, how, comp2) in enumerate([(".nc", "", "setitem", ".gz"), (".nc", ".gz", "write", ""),
+                                                  (".h5", "", "write", "")]):
+        f0 = dict(base, name="fs0", hkind="ncg", path="d0/{year}/{month}/{year}{month}{day}" + sfx + comp)
+        f1 = dict(base, name="fs1", hkind="ncg", path="d1/{year}{doy}" + sfx + comp2)
+        day = [dt.datetime(2018, 1, 1), dt.datetime(2020, 2, 27), dt.datetime(2019, 12, 30)][vi]
+        b = 5 + 10 * vi
+        other = "write" if how == "setitem" else "setitem"
+        # four files: root variables first, a group first, groups only, flat
+        ops = [{"op": "write", "fs": 0, "s": us(day + j * D), "e": us(day + j * D), "v": gv(b, 0, j), "slice": False,
+                "fill": None, "call_args": None} for j in range(4)]
+        ops += [{"op": "collect", "fs": 0, "slice": False, **sel_all, "call_args": None},
+                {"op": "read", "fs": 0, "pick": 1, "pre_args": 0, "call_args": None},
+                {"op": "get", "fs": 0, "pick": 2, "pre_args": 0}]
+        # overwrites in place: flat -> groups only; groups only -> groups only under other names; root first -> a group
+        # first under other names; a group first -> flat; groups only -> root first; each read back at once
+        for pick, v_, hw in [(3, gv(b + 1, 1, 2), how), (2, gv(b + 2, 1, 2), other), (0, gv(b + 3, 1, 1), how),
+                             (1, gv(b + 4, 0, 3), other), (3, gv(b + 5, 0, 0), how), (1, gv(b + 6, 0, 2), how)]:
+            ops += [{"op": "overwrite", "fs": 0, "pick": pick, "how": hw, "v": v_, "after_copy": "netcdf-groups"},
+                    {"op": "read", "fs": 0, "pick": pick, "pre_args": 0, "call_args": None}]
+        ops += [{"op": "collect", "fs": 0, "slice": True, **sel_all, "call_args": None},
+                {"op": "move", "fs": 0, "copy": True, **sel_all, "target": {"kind": "fs", "fs": 1}, "convert": "true",
+                 "conv_none": False},
+                {"op": "collect", "fs": 1, "slice": False, **sel_all, "call_args": None},
+                # a converted copy onto files that exist is outside move_conserves; overwrite them through the fileset
+                {"op": "overwrite", "fs": 1, "pick": 2, "how": other, "v": gv(b + 7, 1, 2), "after_copy": "netcdf-groups"},
+                {"op": "overwrite", "fs": 1, "pick": 0, "how": how, "v": gv(b + 8, 1, 1), "after_copy": "netcdf-groups"},
+                {"op": "collect", "fs": 1, "slice": False, **sel_all, "call_args": None}]
+        cases.append({"id": k0 + len(cases), "filesets": [f0, f1], "ops": ops, "directed": "netcdf-groups"})
+    return cases
+
+
+def decorate3(rng, cases):
+    """Drawn after everything else: half of the histories with NetCDF filesets (thorough tier) store data sets with pseudo
+    groups (kind ncg; every NetCDF fileset of the history, so that a move with convert=True stays within one layout)."""
+    for c in cases:
+        if any(f["hkind"] == "nc" for f in c["filesets"]) and rng.random() < 0.5:
+            for f in c["filesets"]:
+                if f["hkind"] == "nc":
+                    f["hkind"] = "ncg"
+
+
 # ----------------------------------------------------------------------------- Coq terms
 
 import re
@@ -535,7 +665,7 @@ def tokens(path):
     return coq_list(out)
 
 
-HCODE = {"pkl": 1, "json": 2, "csv": 3, "nc": 4}
+HCODE = {"pkl": 1, "json": 2, "csv": 3, "nc": 4, "ncg": 4}      # ncg: NetCDF data sets with pseudo groups (same handler)
 
 
 def post_term(cfg):
@@ -725,8 +855,10 @@ def check_cases(ctx, cases, results):
             continue
         before = {}
         prev_links = []
+        prev_sha = None
         for k, rec in enumerate(r["records"]):
             rec["prev_links"], prev_links = prev_links, rec.get("links") or []
+            rec["prev_sha"], prev_sha = prev_sha, rec.get("sha")
             if rec["out"]["status"] != "skipped":
                 op = rec["op"]
                 ct = call_term(op)
@@ -770,6 +902,17 @@ def check_cases(ctx, cases, results):
                      f"{k}: {describe(op)}", case=c, impl=lk, model=[], signature="paths-share-inode")
         if op["op"] == "overwrite":
             ostats[op.get("after_copy", "other")] = ostats.get(op.get("after_copy", "other"), 0) + 1
+        # ---- an operation that only reads leaves every file of the tree byte for byte as it was (and leaves nothing behind)
+        if (op["op"] in ("read", "get", "collect", "find") and rec.get("sha") is not None and rec.get("prev_sha") is not None):
+            kinds["read_only_steps_with_digests_compared"] = kinds.get("read_only_steps_with_digests_compared", 0) + 1
+            if rec["sha"] != rec["prev_sha"]:
+                a_, b_ = rec["prev_sha"], rec["sha"]
+                ctx.fail("failing-input", f"{op['op']} only reads, but the files of the tree are not byte for byte what they were: "
+                         f"gone {sorted(set(a_) - set(b_))}, new {sorted(set(b_) - set(a_))}, bytes changed "
+                         f"{sorted(p for p in set(a_) & set(b_) if a_[p] != b_[p])} (temp_dir of the fileset is "
+                         f"{op['cfg'].get('temp_dir')}/ inside the tree: reading a compressed file must not touch a file that is "
+                         f"already there, and must leave nothing behind); history {c['id']} step {k}: {describe(op)}", case=c,
+                         impl=sorted(b_.items()), model=sorted(a_.items()), signature="read-changes-bytes")
         if v is None:
             ctx.fail("correspondence", f"Coq evaluation of the model failed on {describe(op)}", case=c, signature="coq-eval")
             continue
@@ -993,6 +1136,8 @@ def run(ctx):
     decorate(ctx.rng, cases)        # after every generator draw: the random histories of a seed stay what they were
     ndir += directed_cases3(ctx.rng, len(cases) + len(ndir))
     decorate2(ctx.rng, cases)       # after the draws of every earlier generator, for the same reason
+    ndir += directed_cases4(len(cases) + len(ndir))      # no random draw
+    decorate3(ctx.rng, cases)       # the last draws
     cases += ndir
     ctx.log(f"{len(cases)} histories ({len(ndir)} directed), {sum(len(c['ops']) for c in cases)} operations")
     results = run_children(ctx, cases, f"h{os.getpid()}", chunk=6 if not ctx.thorough else 16, jobs=12)
@@ -1004,10 +1149,10 @@ def run(ctx):
                        "non-trivial = the operation succeeded and changed the tree, or returned at least one payload that "
                        "was compared; distinct by (operation, tree before)")
     ctx.cov["input_distribution"] = {"histories": len(cases), "netcdf_histories_in_child_process": nnc,
-                                     "directed_histories": {d_: sum(1 for c in ndir if c.get("directed") == d_) for d_ in ("year-end", "removed-then-asked", "single-file", "failing-move", "bound-method-handler", "copy-then-overwrite", "post-reader-sees-file-info")},
+                                     "directed_histories": {d_: sum(1 for c in ndir if c.get("directed") == d_) for d_ in ("year-end", "removed-then-asked", "single-file", "failing-move", "bound-method-handler", "copy-then-overwrite", "post-reader-sees-file-info", "shared-base-name", "netcdf-groups")},
                                      "operations_by_kind": kinds,
                                      "handlers": {k: sum(1 for c in cases for f in c["filesets"] if f["hkind"] == k)
-                                                  for k in ("pkl", "json", "csv", "nc")},
+                                                  for k in ("pkl", "json", "csv", "nc", "ncg")},
                                      "user_handler_flavours_reader_writer": {
                                          f"{a}{b}": sum(1 for c in cases for f in c["filesets"] if f["hkind"] in ("pkl", "json")
                                                         and (f.get("rflav", 0), f.get("wflav", 0)) == (a, b))
@@ -1035,6 +1180,13 @@ def run(ctx):
         "microseconds, attributes) (PostLabel / t_label) and payload + k (PostAdd / t_add); read(\"path\") hands post_reader "
         "FileInfo(path) with times None, modelled as the entry (path, 0, 0, no attributes); fileset[t] is compared when a file "
         "with exactly the generated name exists (the entry its name parses to), otherwise the choice of the file is C16's",
+        "shared-base-name histories: the overlap of the reads is produced by a reader that sleeps 40-60 ms before and after opening "
+        "its file under the default pools (collect: 3 threads; move: 4 processes or 3 threads); the laws do not depend on the "
+        "overlap actually happening (the bystander files in temp_dir make a shared temporary name visible to a single read)",
+        "grouped NetCDF data sets: one level of pseudo groups, grouped variables on dimensions of their own group only (a grouped "
+        "variable on a ROOT dimension cannot be read back on the unchanged tree: KeyError in NetCDF4._load_group; reported, "
+        "not generated); global attributes are not compared for grouped data sets (a data set without root variables has no "
+        "root group to carry them)",
         "copy_is_independent: overwrites after a copy go through FileSet.__setitem__ / write with the toy writers (open(path, 'w'|'wb')), "
         "pandas to_csv and typhon's compress wrapper (open(target, 'wb')): all write in place; a writer that replaces the file by "
         "rename would hide a shared inode from the overwrite histories (not from the paths-share-inode law)",
